@@ -95,8 +95,8 @@ Definition style_request_fixed (s : octs) : style_req :=
   else if forallb plain_class s && negb (three_dots s) then ReqAuto
   else ReqDoubleQuoted.
 
-(** the code now (switched to [style_request_fixed] by the repair commit) *)
-Definition style_request (s : octs) : style_req := style_request_v0 s.
+(** the code now *)
+Definition style_request (s : octs) : style_req := style_request_fixed s.
 
 (* ------------------------------------------------------------------ *)
 (** * (b) yaml-cpp emitter *)
